@@ -1266,11 +1266,23 @@ def _parse_header(line: str) -> tuple[str, dict[str, str]]:
             name = p[:i].strip().lower()
             value = p[i + 1 :].strip()
             params.append((name, native_str(value)))
-    decoded_params = email.utils.decode_params(params)
+    try:
+        decoded_params = email.utils.decode_params(params)
+    except (TypeError, ValueError):
+        # Malformed RFC 2231 continuations ("a*" mixed with "a*0", or an
+        # absurdly long section number) make decode_params raise; keep
+        # the parameters undecoded instead.
+        decoded_params = list(params)
     decoded_params.pop(0)  # get rid of the dummy again
     pdict = {}
     for name, decoded_value in decoded_params:
-        value = email.utils.collapse_rfc2231_value(decoded_value)
+        try:
+            value = email.utils.collapse_rfc2231_value(decoded_value)
+        except ValueError:
+            # The charset is not even a possible codec name (NUL,
+            # unencodable characters); collapse_rfc2231_value only
+            # expects LookupError.
+            value = email.utils.unquote(decoded_value[2])
         if len(value) >= 2 and value[0] == '"' and value[-1] == '"':
             value = value[1:-1]
         pdict[name] = value
